@@ -40,7 +40,8 @@ class Ctx:
         self.notes = []
         self.assumptions = []
         self.extra = {}
-        self.workdir = os.path.join(coqrun.CACHE, "run", pid)
+        # one work directory per running check (several checks of one property may run at the same time)
+        self.workdir = os.path.join(coqrun.CACHE, "run", "%s_%d" % (pid, os.getpid()))
         shutil.rmtree(self.workdir, ignore_errors=True)
         os.makedirs(self.workdir, exist_ok=True)
         self.proof = None
@@ -258,6 +259,7 @@ def run_check(mod, pid, tier, seed, replay=None):
     os.makedirs(os.path.join(VERIF, "evidence"), exist_ok=True)
     with open(os.path.join(VERIF, "evidence", pid + ".json"), "w") as f:
         json.dump(ev, f, indent=1, default=str)
+    shutil.rmtree(ctx.workdir, ignore_errors=True)
     for l in lines:
         print(l)
     print("%s tier=%s seed=%d evaluations=%d nontrivial=%d corr=%d disagreements=%d known_hits=%s new=%d proof=%s wall=%.1fs" % (
